@@ -59,7 +59,8 @@ def cases(tier, seed):
     for i in range(len(DYADIC)):
         for r in range(3 if tier == 'quick' else 20):
             yield dict(kind='tie', spectrum=i, shift=int(rng.integers(-3, 4)), seed=int(rng.integers(1 << 31)))
-            yield dict(kind='rbi', spectrum=i, shift=int(rng.integers(-3, 4)), seed=int(rng.integers(1 << 31)))
+            # the rule is scale invariant: also spectra whose squares under- or overflow (exact powers of two)
+            yield dict(kind='rbi', spectrum=i, shift=int(rng.integers(-3, 4)) if r % 3 else int(rng.choice([-900, -600, 600, 900])), seed=int(rng.integers(1 << 31)))
     for r in range(20 if tier == 'quick' else 200):
         yield dict(kind='rbi', spectrum=-1, shift=0, seed=int(rng.integers(1 << 31)))
     for distr in ('left', 'right', 'sqrt'):
